@@ -713,6 +713,22 @@ func (ss schedsim) reader(m *mtWorld, e *work.Exec, st *work.Step, t *sim.Task) 
 	if dumps < 1 {
 		dumps = 1
 	}
+	// the byte slices handed out by the first dump are kept (not copied) and re-read just before the
+	// transaction ends: memory a read transaction returned stays valid and unchanged for its whole life
+	type heldSlice struct {
+		b   []byte
+		sum uint64
+	}
+	var held []heldSlice
+	e.Hold = func(k, v []byte) {
+		if len(held) < 96 {
+			held = append(held, heldSlice{k, hashBytes(k)})
+			if len(v) > 0 {
+				held = append(held, heldSlice{v, hashBytes(v)})
+			}
+		}
+	}
+	defer func() { e.Hold = nil }()
 	for i := 0; i < dumps && want != nil && len(m.viol) == 0 && !e.Failed(); i++ {
 		if st.Tx != nil {
 			for _, op := range st.Tx.Ops {
@@ -734,11 +750,29 @@ func (ss schedsim) reader(m *mtWorld, e *work.Exec, st *work.Step, t *sim.Task) 
 			}
 		}
 	}
+	if len(m.viol) == 0 {
+		for _, h := range held {
+			if hashBytes(h.b) != h.sum {
+				m.fail("C02", "returned-memory-changed", "reader at txid %d: a byte slice returned earlier in the transaction (%d bytes) has changed under it", id, len(h.b))
+				break
+			}
+		}
+		m.probes["held-slices-rechecked"] += len(held)
+	}
 	m.openTx--
 	m.readersOpen[id]--
 	if rerr := tx.Rollback(); rerr != nil {
 		m.fail("C02", "rollback-error", "reader Rollback: %v", rerr)
 	}
+}
+
+func hashBytes(b []byte) uint64 {
+	h := uint64(14695981039346656037)
+	for _, c := range b {
+		h ^= uint64(c)
+		h *= 1099511628211
+	}
+	return h
 }
 
 // yieldWriter is the io.Writer handed to Tx.WriteTo: it yields to the
